@@ -494,6 +494,11 @@ class ISO8601Sequence(SequenceBase):
 
     def get_prev_point(self, point):
         """Return the previous point < point, or None if out of bounds."""
+        duration = self.recurrence.duration
+        if duration is not None and (duration.years or duration.months):
+            # Month/year steps are not invertible (31 Jan + P1M = 28 Feb but
+            # 28 Feb - P1M = 28 Jan), so walk the recurrence forwards.
+            return self._get_prev_point_by_iteration(point)
         # may be None if out of the recurrence bounds
         res = None
         prev_point = self.recurrence.get_prev(point_parse(point.value))
@@ -515,13 +520,17 @@ class ISO8601Sequence(SequenceBase):
         """Return the largest point < some arbitrary point."""
         if self.is_on_sequence(point):
             return self.get_prev_point(point)
+        return self._get_prev_point_by_iteration(point)
+
+    def _get_prev_point_by_iteration(self, point):
+        """Return the largest non-excluded point < point."""
         p_iso_point = point_parse(point.value)
         prev_cycle_point = None
 
         for recurrence_iso_point in self.recurrence:
 
-            # Is recurrence point greater than arbitrary point?
-            if recurrence_iso_point > p_iso_point:
+            # Is recurrence point greater than (or equal to) the point?
+            if recurrence_iso_point >= p_iso_point:
                 break
             recurrence_cycle_point = ISO8601Point(str(recurrence_iso_point))
             if self.exclusions and recurrence_cycle_point in self.exclusions:
